@@ -7,6 +7,9 @@
 // Level A (digest): both contexts are concretised into real transactions; the real SignatureHash / SignatureHashSchnorr are
 //   evaluated in every cache mode (none, PrecomputedTransactionData, primed SigHashCache, reused ScriptExecutionData, both
 //   transaction classes); all modes must agree and digest equality must be what the specification says.
+// Mode `cache` (specs/Sighash/SigCache.tla): behaviours = sequences of signature checks through one SigHashCache and one
+//   checker object, with equal / equal-length-but-different / different-length scriptCodes; every digest through the cache is
+//   compared with the stateless one and every CheckECDSASignature verdict with the specification's.
 // Level B (script): the base digest is signed with a real key; P2PK / P2WPKH / P2WSH / three-signature / P2TR key path /
 //   tapscript spends are verified with VerifyScript in the base and in the mutated context, with the signature untouched,
 //   bit-flipped, replaced by its high-S twin, or made by another key.
@@ -22,6 +25,7 @@
 #include <addresstype.h>
 #include <secp256k1.h>
 #include <uint256.h>
+#include <memory>
 #include <optional>
 using namespace vfh;
 
@@ -130,6 +134,7 @@ Dig ApiDigest(const UniValue& c, SigVersion sv, std::string& err_out)
     if (!IsTap(sv)) {
         const CScript code = CodeSingle(c["code"].getInt<int>());
         const CScript other_code = CodeMulti(c["code"].getInt<int>());
+        const CScript same_len_code = [&] { CScript x = code; x.back() = OP_CHECKSIGVERIFY; return x; }();   // same length as `code`, different content
         const CAmount amount = w.spent[w.i].nValue;
         d.ok = true;
         d.h = SignatureHash(code, w.tx, w.i, w.ht, amount, sv);
@@ -146,7 +151,7 @@ Dig ApiDigest(const UniValue& c, SigVersion sv, std::string& err_out)
         // one scriptCode (hits within a slot, misses across slots), then the other scriptCode (replaces the slots), twice
         SigHashCache cache;
         for (int round = 0; round < 2; ++round) {
-            for (const CScript* sc : {&other_code, &code}) {
+            for (const CScript* sc : {&other_code, &same_len_code, &code}) {
                 for (const int32_t h : PRIME_HTS) {
                     const uint256 want = SignatureHash(*sc, ctx, w.i, h, amount, sv, &forced);
                     if (SignatureHash(*sc, ctx, w.i, h, amount, sv, &forced, &cache) != want) { if (err.empty()) err = "SigHashCache changes the digest (hash type " + std::to_string(h) + ")"; }
@@ -154,7 +159,7 @@ Dig ApiDigest(const UniValue& c, SigVersion sv, std::string& err_out)
             }
             if (SignatureHash(code, ctx, w.i, w.ht, amount, sv, &forced, &cache) != d.h) { if (err.empty()) err = "SigHashCache changes the digest"; }
         }
-        R().Count("digest_evaluations", 5 + 2 * (int)std::size(PRIME_HTS) + 2 * (2 * 2 * (int)std::size(PRIME_HTS) + 1));
+        R().Count("digest_evaluations", 5 + 2 * (int)std::size(PRIME_HTS) + 2 * (3 * 2 * (int)std::size(PRIME_HTS) + 1));
     } else {
         PrecomputedTransactionData td; td.Init(ctx, std::vector<CTxOut>(w.spent), /*force=*/true);
         ScriptExecutionData ed = ExecData(c, sv);
@@ -466,12 +471,65 @@ std::string CheckRow(const UniValue& row)
     return "";
 }
 
+// ---- specs/Sighash/SigCache.tla: sequences of signature checks through ONE checker (one SigHashCache)
+// scriptCodes of the cache behaviours: 1 and 2 have the same length and differ in the last opcode, 3 is one byte longer
+CScript CacheCode(int k)
+{
+    if (k == 1) return CScript() << PubA() << OP_CHECKSIG;
+    if (k == 2) return CScript() << PubA() << OP_CHECKSIGVERIFY;
+    return CScript() << OP_NOP << PubA() << OP_CHECKSIG;
+}
+struct CacheWorld {
+    World w;
+    SigVersion sv;
+    std::unique_ptr<CTransaction> tx;
+    PrecomputedTransactionData txdata;
+    SigHashCache cache;                                       // a cache driven directly through SignatureHash
+    std::unique_ptr<TransactionSignatureChecker> checker;     // and the private cache of one checker, fed the same requests
+    std::unique_ptr<MutableTransactionSignatureChecker> mchecker;
+};
+std::unique_ptr<CacheWorld> MakeCacheWorld(const UniValue& init)
+{
+    auto cw = std::make_unique<CacheWorld>();
+    cw->w = BuildWorld(init["ctx"]);
+    cw->sv = SV(init["sv"].get_str());
+    cw->tx = std::make_unique<CTransaction>(cw->w.tx);
+    cw->txdata.Init(*cw->tx, std::vector<CTxOut>(cw->w.spent), true);
+    const CAmount amount = cw->w.spent[cw->w.i].nValue;
+    cw->checker = std::make_unique<TransactionSignatureChecker>(cw->tx.get(), cw->w.i, amount, cw->txdata, MissingDataBehavior::ASSERT_FAIL);
+    cw->mchecker = std::make_unique<MutableTransactionSignatureChecker>(&cw->w.tx, cw->w.i, amount, MissingDataBehavior::FAIL);
+    return cw;
+}
+UniValue ApplyCache(CacheWorld& cw, const UniValue& a)
+{
+    if (a[0].get_str() != "check") throw std::runtime_error("unknown action");
+    const CScript signed_code = CacheCode(a[1].getInt<int>()), exec_code = CacheCode(a[2].getInt<int>());
+    const int ht = a[3].getInt<int>();
+    const CAmount amount = cw.w.spent[cw.w.i].nValue;
+    // stateless reference and the digest through the shared cache
+    const uint256 ref = SignatureHash(exec_code, *cw.tx, cw.w.i, ht, amount, cw.sv);
+    const uint256 got = SignatureHash(exec_code, *cw.tx, cw.w.i, ht, amount, cw.sv, &cw.txdata, &cw.cache);
+    // a real signature over the stateless digest for `signed_code`, checked by the long-lived checkers while `exec_code` executes
+    Bytes sig;
+    const bool s_ok = KeyA().Sign(SignatureHash(signed_code, *cw.tx, cw.w.i, ht, amount, cw.sv), sig);
+    assert(s_ok);
+    sig.push_back((unsigned char)ht);
+    const bool ok = cw.checker->CheckECDSASignature(sig, PubA(), exec_code, cw.sv);
+    const bool ok2 = cw.mchecker->CheckECDSASignature(sig, PubA(), exec_code, cw.sv);
+    R().Count("cache_requests");
+    if (ok != ok2) throw std::runtime_error("CTransaction and CMutableTransaction checkers disagree");
+    return Obj({{"ok", ok}, {"eq", got == ref}});
+}
+
 } // namespace
 
 int main(int argc, char** argv)
 {
     if (argc < 3) return 2;
     ECC_Context ecc;
+    if (std::string(argv[1]) == "cache") {
+        return ReplayMain<CacheWorld>(argv[2], MakeCacheWorld, ApplyCache, [](CacheWorld&) { return UniValue(UniValue::VOBJ); });
+    }
     if (std::string(argv[1]) != "table") return 2;
     // TableMain, but a mismatch is reported with a one-line summary of the row (the replay file holds the whole row)
     InstallAbortHandlers();
